@@ -1,15 +1,17 @@
-(* Model of the analysis pass: /repo/src/analysis/event_consumer.rs
-   (RecipeCollector, parse_events 116-222, metadata 329-380, in_step 490-549,
-   in_text 551-574, ingredient 576-768, resolve_intermediate_ref 770-890,
-   cookware 892-970, timer 972-1017, quantity/value 1019-1059,
-   resolve_reference 1061-1217, set_referenced_from 1267-1275/1314-1322,
-   parse_reference 1498-1510) over the event stream of Model/Events.v, producing
-   the recipe structure of /repo/src/model.rs.
+(* Model of the analysis pass: /repo/src/analysis/event_consumer.rs as of the repair
+   c9128f1 (RecipeCollector, parse_events 116-233 with the empty-block test 168-182,
+   metadata 340-391, in_step 501-560, in_text 562-585, ingredient 587-779,
+   resolve_intermediate_ref 781-901, cookware 903-981, timer 983-1028,
+   quantity/value 1030-1070, resolve_reference 1072-1228,
+   set_referenced_from 1278-1286/1325-1333, parse_reference 1509-1521) over the event
+   stream of Model/Events.v, producing the recipe structure of /repo/src/model.rs.
+   The [site_*] constants below are stable names of panic sites (the line of the
+   statement before c9128f1, which moved everything after line 165 down by 11).
 
    Kept: everything that decides the *structure* of the recipe (sections, content,
    items, component tables, relations, modifiers, step numbers), whether analysis
    reported an error (PassResult::is_valid), and whether there is an output at
-   all (a parser Error event: 189-201).  Dropped: the metadata map and every
+   all (a parser Error event: 200-212).  Dropped: the metadata map and every
    warning (they influence neither); diagnostics are reduced to the one bit
    "an error was reported".
 
@@ -19,8 +21,9 @@
      find_iq     find_inline_quantity(text, converter) = Some (before, _, after)
      unit_class  converter.find_unit(u): 0 unknown, 1 a time unit, 2 another unit
    [input] is the source text (in_text slices it), [x] the extensions the pass
-   looks at, [cfg] selects the behaviour before/after the two repairs of
-   DESIGN.md section 7 rows 2 and 3 (empty step / empty text content). *)
+   looks at, [cfg] selects the behaviour before ([cfg0]) / after ([cfgF]) the repair
+   c9128f1 of DESIGN.md section 7 rows 2 and 3 (empty step / empty text content are
+   no longer pushed nor counted: [skipped], [finish_block]). *)
 From Coq Require Import ZArith.
 From CL Require Export Model.Events.
 Open Scope N_scope.
